@@ -114,6 +114,9 @@ fn main() {
                 rep.inconclusive(c, &format!("harness-error:{}", e));
                 continue;
             }
+            if let Some(f) = c.end.unwrap().num("failed-parse-first") {
+                rep.count("cases-preceded-by-a-failing-parse-on-the-same-thread", f);
+            }
             match prop.as_str() {
                 "C02" => basic::c02(c, &mut rep),
                 "C05" => basic::c05(c, &mut rep),
